@@ -10,6 +10,8 @@ def run(tier, seed):
         rep.add(ob)
     for ob in c14.obligations(tier, seed):
         rep.add(ob)
+    for ob in c14.solved_curves_obligations(tier, seed):
+        rep.add(ob)
     for ob in c14.simulator_obligations(tier, seed):
         rep.add(ob)
     rep.level = 'other'
